@@ -271,6 +271,53 @@ _more("percentile", [["x", L(0.0), _B], ["x", L(1.0), _B]], AGG)
 _more("percentile_approx", [["x", L(0.0), _B], ["x", L(1.0), _B]], AGG)
 _more("count_if", [[E("F.col('i') > 100")]], AGG)
 
+# ---------------------------------------------------------------------------------------------------------------
+# boundary FORMAT / pattern arguments: every emulation that takes a pattern apart (in Python: format_string's split on
+# %s/%d, sha2's numBits; through sqlglot's tables: the time formats of session.format_time; in the engine: units, regex
+# replacement syntax, JSON paths) gets adjacent / leading / trailing / repeated / single-letter / quoted-literal pieces.
+# ---------------------------------------------------------------------------------------------------------------
+_P = Tag("pattern-shape")
+_more("format_string", [[L("%s%s"), "s", "t", Tag("adjacent-placeholders")], [L("%s"), "s", Tag("only-placeholder")],
+                        [L("%s and %s"), "s", "t", Tag("leading-placeholder")], [L("x%sy%sz"), "s", "t", _P],
+                        [L("%d%d"), "i", "j", Tag("adjacent-placeholders")], [L("%s-%s-%s"), "s", "t", "w", _P],
+                        [L("%s%s%s"), "s", "t", "w", Tag("adjacent-placeholders")], [L("a=%d"), "i", Tag("trailing-placeholder")],
+                        [L("%s!"), "t", Tag("leading-placeholder")], [L("<%s|%d>%s"), "s", "i", "t", _P]])
+_TF = Tag("time-format")
+_more("date_format", [["ts", L("yyyyMMdd"), _TF], ["ts", L("HHmmss"), _TF], ["ts", L("yyyy-MM-dd'T'HH:mm:ss"), Tag("quoted-literal")],
+                      ["ts", L("d/M/yy"), _TF], ["ts", L("hh:mm a"), Tag("am-pm")], ["ts", L("yyyy-MM-dd HH:mm:ss.SSS"), Tag("fraction")],
+                      ["d", L("yyyy"), _TF], ["ts", L("MMMM"), _TF], ["ts", L("EEEE"), _TF], ["d", L("DDD"), Tag("day-of-year")],
+                      ["ts", L("yyyy"), _TF], ["ts", L("MM"), _TF]])
+_more("from_unixtime", [["ep", L("yyyyMMddHHmmss"), _TF], ["ep", L("HH:mm"), _TF], ["ep", L("dd MMM yyyy"), _TF]])
+_more("to_date", [[E("F.lit('20240131')"), L("yyyyMMdd"), _TF], [E("F.lit('31.01.24')"), L("dd.MM.yy"), _TF],
+                  [E("F.lit('2024/1/5')"), L("yyyy/M/d"), Tag("single-letter-fields")], [E("F.lit('Jan 31, 2024')"), L("MMM d, yyyy"), _TF]])
+_more("to_timestamp", [[E("F.lit('2024-01-31T13:45:10')"), L("yyyy-MM-dd'T'HH:mm:ss"), Tag("quoted-literal")],
+                       [E("F.lit('20240131 134510')"), L("yyyyMMdd HHmmss"), _TF],
+                       [E("F.lit('31/01/2024 01:45 PM')"), L("dd/MM/yyyy hh:mm a"), Tag("am-pm")],
+                       [E("F.lit('2024-01-31 13:45:10.123')"), L("yyyy-MM-dd HH:mm:ss.SSS"), Tag("fraction")]])
+_more("unix_timestamp", [[E("F.lit('20240131134510')"), L("yyyyMMddHHmmss"), _TF], [E("F.lit('2024-01-31')"), L("yyyy-MM-dd"), _TF]])
+_more("to_unix_timestamp", [[E("F.lit('20240131134510')"), Lit("yyyyMMddHHmmss"), _TF], [E("F.lit('31/01/2024')"), Lit("dd/MM/yyyy"), _TF]])
+_more("try_to_timestamp", [[E("F.lit('20240131134510')"), Lit("yyyyMMddHHmmss"), _TF], [E("F.lit('not a date')"), Lit("yyyy-MM-dd"), Tag("unparsable")]])
+_U = Tag("unit-spelling")
+_more("date_trunc", [[L("yyyy"), "ts", _U], [L("mm"), "ts", _U], [L("day"), "ts", _U], [L("week"), "ts", _U], [L("quarter"), "ts", _U],
+                     [L("minute"), "ts", _U], [L("second"), "ts", _U], [L("MONTH"), "ts", _U]])
+_more("trunc", [["d", L("yyyy"), _U], ["d", L("yy"), _U], ["d", L("mm"), _U], ["d", L("mon"), _U], ["d", L("week"), _U],
+                ["d", L("quarter"), _U], ["d", L("MONTH"), _U]])
+_more("extract", [[Lit("DAY"), "d", _U], [Lit("HOUR"), "ts", _U], [Lit("QUARTER"), "d", _U], [Lit("SECOND"), "ts", _U]])
+_more("translate", [["s", L("abc"), L(""), Tag("empty-replace")], ["s", L("ab"), L("xyz"), _P], ["s", L(""), L("x"), _P]])
+_more("regexp_replace", [["s", L("(l+)"), L("[$1]"), Tag("group-reference")], ["s", L(""), L("-"), Tag("empty-pattern")], ["s", L("^"), L(">"), _P]])
+_more("regexp_extract", [["s", L("(\\w+) (\\w+)"), L(2), _P], ["s", L("xyz"), L(0), Tag("no-match")]])
+_more("split", [["s", L("\\s+"), _P], ["s", L("b"), _P], ["s", L(",+"), _P]])
+_more("get_json_object", [["js", L("$"), Tag("root-path")], ["js", L("$.zz"), Tag("missing-key")]])
+_more("concat_ws", [[L(""), "s", "t", Tag("empty-separator")], [L(", "), "s", Tag("single-column")], [L("-"), "s", "t", "w"]])
+_more("sha2", [["s", L(224), Tag("numBits-224")], ["s", L(384), Tag("numBits-384")]])
+_more("instr", [["s", L(""), Tag("empty-substring")], ["s", L("zzz"), _P]])
+_more("replace", [["s", Lit(""), Lit("x"), Tag("empty-search")]])
+_more("split_part", [["s", Lit(""), Lit(1), Tag("empty-delimiter")]])
+_more("lpad", [["s", L(14), L("abc"), _P]])
+_more("rpad", [["s", L(14), L("abc"), _P]])
+_more("array_join", [["sa", L(", "), _P]])
+_more("months_between", [["ts", "ts"], ["d", "d"]])
+
 # aggregate groups: every aggregate is evaluated over each of these sub-frames (statistical aggregates special-case small samples)
 AGG_GROUPS = [("5 ordinary rows", lambda F: F.col("id") <= 5), ("the all-NULL row alone", lambda F: F.col("id") == 6),
               ("1 row", lambda F: F.col("id") == 1), ("2 rows", lambda F: F.col("id") <= 2), ("3 rows", lambda F: F.col("id") <= 3)]
